@@ -35,6 +35,9 @@ pub struct LexerOpts {
     pub case_insensitive: Option<bool>,
     pub dot_matches_new_line: Option<bool>,
     pub warnings_are_errors: Option<bool>,
+    /// the remaining CTLexerBuilder setters (regex flags and limits), by name
+    #[serde(default)]
+    pub extra: std::collections::BTreeMap<String, String>,
 }
 
 #[derive(Serialize, Deserialize, Clone, Debug)]
@@ -215,6 +218,23 @@ fn run(spec: &BuildSpec) -> Result<(bool, Option<bool>), String> {
     }
     if let Some(v) = l.warnings_are_errors {
         lb = lb.warnings_are_errors(v);
+    }
+    for (k, v) in &l.extra {
+        let f = v == "true";
+        let n: u64 = v.parse().unwrap_or(0);
+        lb = match k.as_str() {
+            "allow_wholeline_comments" => lb.allow_wholeline_comments(f),
+            "multi_line" => lb.multi_line(f),
+            "posix_escapes" => lb.posix_escapes(f),
+            "octal" => lb.octal(f),
+            "swap_greed" => lb.swap_greed(f),
+            "ignore_whitespace" => lb.ignore_whitespace(f),
+            "unicode" => lb.unicode(f),
+            "size_limit" => lb.size_limit(n as usize),
+            "dfa_size_limit" => lb.dfa_size_limit(n as usize),
+            "nest_limit" => lb.nest_limit(n as u32),
+            _ => lb,
+        };
     }
     lb = lb.show_warnings(false);
     let before_parser = std::fs::metadata(&spec.parser_out).ok().and_then(|m| m.modified().ok());
